@@ -315,6 +315,9 @@ func (g *ExprGen) Top() string {
 	return g.Gen(typ, g.R.Range(1, 3+Scale))
 }
 
+var strTwins = []string{"1h", "1H", "90m", "90M", "2020-01-02T03:04:05Z", "2020-01-02t03:04:05z", "1e2", "1E2", "true", "TRUE", "True",
+	"0x1f", "0X1F", "inf", "Inf", "nan", "NaN", "1.5", "12", " 12", "12 "}
+
 // ValueOf draws a value for a variable of the given generator type.
 func GenValue(r *Rand, typ string) Val {
 	if r.Bool(0.06) {
@@ -332,6 +335,11 @@ func GenValue(r *Rand, typ string) Val {
 		}
 		return VFloat(float32(r.Range(-40, 400)) / 8)
 	case "str":
+		if r.Bool(0.2) {
+			// texts that convert to other types, in two letter cases: the converters are case sensitive
+			// for some target types and not for others ("1h" is an hour, "1H" is not a time span)
+			return VStr(r.Pick(strTwins))
+		}
 		return VStr(r.Pick([]string{"", "a", "ab", "abc", "hello", "Ab", "x y"}))
 	case "bool":
 		return VBool(r.Bool(0.5))
